@@ -316,11 +316,44 @@ pub fn check(thorough: bool, _seed: u64) -> Check {
         classes: vec![("quartic_special_form", true), ("generic_form", true)],
         bounds: json!({"degrees": "1..8", "coefficients": "p from q(L) = (L - L0) s(L), L0 in {-1, 0.5, 2, -0.25}, s with small integer coefficients", "knot.x": "exp(L0)(1+d), d in {0, +-3e-7, 1e-9, -1e-12, 2.5e-16}", "knot.y": "{0.5, 0, -3}", "(a,b)": "(0.5, 3)"}),
     };
+    // coefficients of very different and of extreme magnitude (the property is linear in the coefficients: a rescaling
+    // path must not treat one coefficient differently from the others)
+    let magn = Phase {
+        name: "extreme-coefficient-magnitudes",
+        units: 9,
+        split: 1,
+        body: Box::new(move |d, cx| {
+            let n = d + 1;
+            let sc = [1e160, 1e200, 4.149515568880993e180, 1e-200, 1e-160, 1e100][cx.choose(6)];
+            let pat = cx.choose(4);
+            let lane = cx.choose(n);
+            let c: Vec<f64> = (0..n)
+                .map(|i| match pat {
+                    0 => LANE_ID[i] * sc,                                              // everything at the extreme scale
+                    1 => if i == lane { sc } else { LANE_ID[i] * sc * 1e-10 },          // one coefficient 10 orders above the rest
+                    2 => if i == lane { sc } else if i == n - 1 { sc * 1e-10 } else { 0.0 }, // one extreme coefficient and a leading one
+                    _ => if i == lane { LANE_ID[i] } else { LANE_ID[i] * sc },          // one ordinary coefficient among extreme ones
+                })
+                .collect();
+            let kx = [2.0, 0.5, 7.5][cx.choose(3)];
+            let knot = Knot { x: kx, y: [0.0, 2.0 * sc][cx.choose(2)] };
+            let (a, b) = [(2.0, 3.0), (0.5, 0.25), (3.0, 10.0), (1e-3, 2.0)][cx.choose(4)];
+            cx.nontrivial();
+            cx.class(if d == 4 { 0 } else { 1 });
+            if cx.sampling() {
+                cx.sample(json!({"degree": d, "coefficients": c, "knot": [knot.x, knot.y], "a": a, "b": b}));
+            }
+            by_degree!(d, leaf(&c, knot, a, b, cx))
+        }),
+        classes: vec![("quartic_special_form", true), ("generic_form", true)],
+        bounds: json!({"degrees": "0..8", "coefficients": "scale s in {1e160,1e200,2^600,1e-200,1e-160,1e100} x {lane identifier*s; one coefficient (every position) s with the rest 1e-10 s; one coefficient s and a leading 1e-10 s; one ordinary coefficient among s-sized ones}",
+            "knots": "x in {2,0.5,7.5} x y in {0,2s}", "(a,b)": "(2,3),(0.5,0.25),(3,10),(1e-3,2)"}),
+    };
     Check {
         id: "C09",
         rule: "choice tree: (degree, knot) resp. (degree, (a,b)) unit x coefficient vector; each leaf runs the real Log<PolyN>::integral / indefinite and evaluates the result at knot.x, a and b through its real evaluate; non-trivial = a, b (and knot.x) different from 1".into(),
         assumptions: vec!["f64::ln within 1 ulp (its rounding is propagated into the tolerance)".into()],
-        phases: vec![knots, pairs_ph, sweep, coincide, cancel, zeros],
+        phases: vec![knots, pairs_ph, sweep, coincide, cancel, zeros, magn],
         extra: Default::default(),
         controls: vec![("oracle G reproduces the integral of ln t: t ln t - t", Box::new(|| {
             let (q, m) = exact_q(&[0.0, 1.0]);
